@@ -618,11 +618,11 @@ func c20CompareParam(name string, want c20Param, got string) (class, what string
 		if worst > 1e-6 {
 			return "bbox", fmt.Sprintf("bbox = %q, want %s", got, wantS)
 		}
-		// OSM coordinates have a resolution of 1e-7 degrees: the request must name the same
-		// 1e-7 grid point as the argument.
-		if worst > 0.5e-7+1e-12 {
-			return "bbox-precision", fmt.Sprintf("bbox = %q differs from the argument %s by %.2g degrees (coordinates have 7 decimals)", got, wantS, worst)
-		}
+		// The statement promises the documented path "for its arguments"; it does not promise a
+		// decimal precision for floating-point arguments. The library renders coordinates with
+		// six decimals (half a unit = 5e-7 degrees, about 5 cm), which an earlier revision of
+		// this check reported as "bbox-precision". That demanded more than the property states
+		// (false alarm, see DESIGN.md section 8): deviations up to 1e-6 are accepted.
 	}
 	return "", ""
 }
@@ -1152,7 +1152,7 @@ func init() {
 			"A signature is endpoint|options|base|access|limiter|status/body/size; distinct_nontrivial counts distinct signatures.",
 		Assumptions: []string{
 			"query strings are compared as parsed parameter sets (own parser); a trailing '?' or '&' and parameter order are insignificant; multi-fetch id lists are compared as sets",
-			"bbox components are compared numerically: a deviation above 1e-6 is class 'bbox' (wrong box), above 0.5e-7 class 'bbox-precision' (OSM coordinates have 7 decimals; the generated boxes have at most 7)",
+			"bbox components are compared numerically: a deviation above 1e-6 is class 'bbox' (wrong box); the library renders six decimals and the statement promises no decimal precision, so smaller deviations are accepted",
 			"the 'at' option is compared as an instant with a tolerance below one second (documented format has whole seconds)",
 			"include_discussion only has to be present (the API documents that any value switches the discussion on)",
 			"a base URL with a trailing slash is not documented by the library (its BaseURL constant has none): paths are compared with runs of '/' collapsed",
